@@ -223,10 +223,11 @@ def autocrop(data, px):
     com = centroid(data, unit='pixels')
     cy, cx = (int(c) for c in com)
     w = px // 2
+    # px is the full width: [c - px//2, c - px//2 + px) puts the centroid on sample px//2 of the window
     aoi_y_l = cy - w
-    aoi_y_h = aoi_y_l + w
+    aoi_y_h = aoi_y_l + px
     aoi_x_l = cx - w
-    aoi_x_h = aoi_x_l + w
+    aoi_x_h = aoi_x_l + px
     return data[aoi_y_l:aoi_y_h, aoi_x_l:aoi_x_h]
 
 
